@@ -22,6 +22,7 @@ import (
 	"net"
 	"strconv"
 	"sync"
+	"time"
 
 	"github.com/cybergarage/go-logger/log"
 	"github.com/cybergarage/go-redis/redis/auth"
@@ -279,14 +280,26 @@ func (server *Server) tlsServe(l net.Listener, tlsConfig *tls.Config) error {
 			return err
 		}
 
-		tlsConn := tls.Server(conn, tlsConfig)
-		if err := tlsConn.Handshake(); err != nil {
-			return err
-		}
-		tlsState := tlsConn.ConnectionState()
-
-		go server.receive(tlsConn, &tlsState)
+		// The handshake runs in the goroutine of the connection: a client that fails,
+		// stalls or abandons its handshake must not stop the accept loop.
+		go server.tlsReceive(tls.Server(conn, tlsConfig))
 	}
+}
+
+// tlsReceive completes the TLS handshake and handles the client connection.
+func (server *Server) tlsReceive(tlsConn *tls.Conn) error {
+	if err := tlsConn.SetDeadline(time.Now().Add(tlsHandshakeTimeout)); err != nil {
+		return errors.Join(err, tlsConn.Close())
+	}
+	if err := tlsConn.Handshake(); err != nil {
+		log.Error(err)
+		return errors.Join(err, tlsConn.Close())
+	}
+	if err := tlsConn.SetDeadline(time.Time{}); err != nil {
+		return errors.Join(err, tlsConn.Close())
+	}
+	tlsState := tlsConn.ConnectionState()
+	return server.receive(tlsConn, &tlsState)
 }
 
 // receive handles a client connection.
